@@ -110,6 +110,54 @@ func (i *impl) nextWritten() message.Message {
 	}
 }
 
+// pingIDs: every keepalive ping of one connection, and the other requests issued meanwhile, bear distinct even ids.
+func pingIDs(n int) string {
+	tr, utr := newFake(), newFake()
+	tr.in <- &message.ConnectResponse{RequestID: 0, ResultCode: message.ResultCodeSucceeded}
+	c, err := wire.Connect(&wire.ClientConnConfig{Transport: tr, UnreliableTransport: utr, PingInterval: 4 * time.Millisecond, PingTimeout: 10 * time.Second})
+	if err != nil {
+		return "connect failed: " + err.Error()
+	}
+	defer c.Close()
+	var ids []uint32
+	pings, others, asked := 0, 0, false
+	deadline := time.After(watchdog)
+	for pings < n || (asked && others == 0) {
+		select {
+		case m := <-tr.out:
+			switch v := m.(type) {
+			case *message.ConnectRequest:
+			case *message.Ping:
+				ids = append(ids, uint32(v.RequestID))
+				pings++
+				tr.in <- &message.Pong{RequestID: v.RequestID}
+				if pings == 2 && !asked {
+					asked = true
+					go func() {
+						ctx, cancel := context.WithTimeout(context.Background(), watchdog)
+						defer cancel()
+						c.SendUpstreamMetadata(ctx, &message.UpstreamMetadata{Metadata: &message.BaseTime{Name: "x"}})
+					}()
+				}
+			case *message.UpstreamMetadata:
+				ids = append(ids, uint32(v.RequestID))
+				others++
+				tr.in <- &message.UpstreamMetadataAck{RequestID: v.RequestID, ResultCode: message.ResultCodeSucceeded}
+			}
+		case <-deadline:
+			return fmt.Sprintf("pingids hang after %d pings", pings)
+		}
+	}
+	seen := map[uint32]bool{}
+	for _, id := range ids {
+		if seen[id] || id%2 != 0 {
+			return fmt.Sprintf("pingids bad %v", ids)
+		}
+		seen[id] = true
+	}
+	return "pingids ok"
+}
+
 func kindOfResp(m message.Message) string {
 	switch m.(type) {
 	case *message.UpstreamOpenResponse:
@@ -344,7 +392,7 @@ func main() {
 			v, _ := strconv.Atoi(w[k])
 			return v
 		}
-		if w[0] != "reset" && (im == nil || im.dead) {
+		if w[0] != "reset" && w[0] != "pingids" && (im == nil || im.dead) {
 			return "dead"
 		}
 		switch w[0] {
@@ -471,6 +519,8 @@ func main() {
 			case <-time.After(2 * time.Millisecond):
 			}
 			return "nobody"
+		case "pingids": // a connection of its own that lives through n keepalive periods, with a metadata request in between
+			return pingIDs(n(1))
 		case "sync": // re-arm the sentinel
 			return im.startCall(99, "metadata", 0, 0)
 		case "cancel":
@@ -631,8 +681,21 @@ func main() {
 		}
 		return "bad-op"
 	}
+	stuck := false
 	do := func(op string) string {
-		out := exec(op)
+		if stuck {
+			return "dead" // a library call of an earlier op never returned: nothing after it is comparable
+		}
+		// library calls made on this goroutine's behalf (Subscribe*, Close, ...) must return: a lock left behind by an earlier
+		// operation would otherwise stall the harness itself instead of being reported
+		res := make(chan string, 1)
+		go func() { res <- exec(op) }()
+		var out string
+		select {
+		case out = <-res:
+		case <-time.After(5 * watchdog):
+			out, stuck = "hang", true
+		}
 		if op == "reset" {
 			sentAckCh, sentDps, sentDpsU, sentAckc, sentMeta = nil, nil, nil, nil, nil
 		}
